@@ -182,3 +182,120 @@ Example C14_ex_e : 1 <= 3 /\
   snd (run (binit 3 0) [Append []; Append [1;2;3;4]; Invalidate 3; Append []; ReadS None None])
     = [ONone; ONone; ONone; ONone; OData [2; 3]].
 Proof. vm_compute. repeat split; reflexivity || congruence. Qed.
+
+(* ====================================================================================
+   Translator tie: the theorems above are about the hand-written model of Buffer/Model.v.  gen/BufferStepGen.v holds one
+   definition `g_<method>` per method of SignalBuffer, REGENERATED from psiaudio/buffer.py on every run
+   (translate/pybuffer2coq.py, hook harness/C14.py translate(); statement by statement, exceptions as values `Raise` /
+   `MRaise`, NumPy slice assignment / np.full / np.pad as in Buffer/TieLib.v).  Buffer/ProofsTie.v proves that these
+   definitions equal the model, so that what is proved of the model is proved of what the source says now. *)
+From PV Require Import Buffer.TieLib gen.BufferStepGen Buffer.ProofsTie.
+
+(* bounds, index translations and all reads of the source are the model's - in EVERY state (no invariant needed) *)
+Theorem C14_source_reads : forall b : bstate,
+  (forall i, g_samples_to_index b i = samples_to_index b i) /\
+  (forall t, g_time_to_index b t = samples_to_index b t) /\
+  g_get_samples_lb b = samples_lb b /\ g_get_samples_ub b = samples_ub b /\
+  (forall lb ub, out_of_res (g_get_range_samples b lb ub) = get_range_samples b lb ub) /\
+  (forall a e f, out_of_res (g_get_range_filled b a e f) = get_range_filled b a e f) /\
+  (forall a e f, out_of_res (g_get_latest b a e f) = get_latest b a e f).
+Proof. exact source_reads. Qed.
+Print Assumptions C14_source_reads.
+
+(* constructor and mutators of the source are the model's in every state with
+   binv b := len(_buffer) = _buffer_samples /\ 0 <= _ilb <= _buffer_samples /\ 1 <= _buffer_samples.
+   Invalidation: the source fills the freed slots with the buffer's fill value, the model with NaN (`nanv`); the results
+   agree on all bookkeeping fields and on every slot from _ilb on (bsim), and are equal when the fill value is NaN *)
+Theorem C14_source_mutators :
+  (forall c fill, 0 <= c -> g_init c fill = MOk (binit c fill)) /\
+  (forall b, binv b ->
+     (forall d, g_append_data b d = MOk (append b d)) /\
+     (forall m, 0 <= m -> g_resize b m = MOk (resize b m)) /\
+     (forall i, exists b', g_invalidate_samples b i = MOk b' /\ g_invalidate b i = MOk b' /\
+                           bsim b' (invalidate_samples b i) /\
+                           (fillv b = nanv -> b' = invalidate_samples b i))).
+Proof. exact source_mutators. Qed.
+Print Assumptions C14_source_mutators.
+
+(* ... and not without those hypotheses: a negative number of slots, a buffer of zero slots, a negative resize, and
+   the freed slots of an invalidation with a fill value other than NaN *)
+Theorem C14_source_mutators_need_invariant :
+  (exists c fill, g_init c fill <> MOk (binit c fill)) /\
+  (exists b d, g_append_data b d <> MOk (append b d)) /\
+  (exists b m, binv b /\ g_resize b m <> MOk (resize b m)) /\
+  (exists b i, binv b /\ g__invalidate b i <> MOk (invalidate_idx true b i)).
+Proof. exact source_mutators_need_invariant. Qed.
+Print Assumptions C14_source_mutators_need_invariant.
+
+(* one operation of a history, dispatched to the generated methods (g_step), against the model's `step` *)
+Theorem C14_source_step : forall b o, binv b -> resize_ok o ->
+  snd (g_step b o) = snd (step b o) /\ bsim (fst (g_step b o)) (fst (step b o)) /\
+  (is_invalidate o = false \/ fillv b = nanv -> g_step b o = step b o).
+Proof. exact source_step. Qed.
+Print Assumptions C14_source_step.
+
+Theorem C14_source_step_exact_refuted :
+  exists b o, binv b /\ resize_ok o /\ wf_op o = true /\ g_step b o <> step b o.
+Proof. exact tie_step_exact_refuted. Qed.
+Print Assumptions C14_source_step_exact_refuted.
+
+(* C14_refines_spec restated over the run built from the GENERATED step: the constructor of the source succeeds, and
+   every observable output of every well-formed history is the abstract specification's *)
+Theorem C14_source_refines_spec : forall c fill ops, 1 <= c -> wf_hist (sinit c fill) ops = true ->
+  exists b0, g_init c fill = MOk b0 /\ snd (g_run b0 ops) = snd (spec_run (sinit c fill) ops).
+Proof. exact source_refines_spec. Qed.
+Print Assumptions C14_source_refines_spec.
+
+(* ... for the widest class of histories (crossed plain reads, zero-length appends), with the simulation relation *)
+Theorem C14_source_refines_spec_e : forall c fill ops, 1 <= c -> wf_hist_e (sinit c fill) ops = true ->
+  exists b0, g_init c fill = MOk b0 /\
+    snd (g_run b0 ops) = snd (spec_run (sinit c fill) ops) /\
+    Rel (fst (g_run b0 ops)) (fst (spec_run (sinit c fill) ops)).
+Proof. exact source_refines_spec_e. Qed.
+Print Assumptions C14_source_refines_spec_e.
+
+(* ... hence the generated run and the model's run agree on every output of every such history, on all bookkeeping
+   fields and on every slot a read can reach *)
+Theorem C14_source_matches_model : forall c fill ops, 1 <= c -> wf_hist_e (sinit c fill) ops = true ->
+  exists b0, g_init c fill = MOk b0 /\
+    snd (g_run b0 ops) = snd (run (binit c fill) ops) /\
+    (let g := fst (g_run b0 ops) in let m := fst (run (binit c fill) ops) in
+     cap g = cap m /\ S g = S m /\ ilb g = ilb m /\ fillv g = fillv m /\ zlen (buf g) = zlen (buf m) /\
+     skipn (Z.to_nat (ilb m)) (buf g) = skipn (Z.to_nat (ilb m)) (buf m)).
+Proof. exact source_matches_model. Qed.
+Print Assumptions C14_source_matches_model.
+
+(* C14_bounds over the generated getters, plus the invariant in every state the generated run reaches *)
+Theorem C14_source_bounds : forall c fill ops b0 b, 1 <= c -> wf_hist_e (sinit c fill) ops = true ->
+  g_init c fill = MOk b0 -> fst (g_run b0 ops) = b ->
+  0 <= g_get_samples_lb b <= g_get_samples_ub b /\ g_get_samples_ub b - g_get_samples_lb b <= cap b /\
+  g_get_samples_ub b = slen (fst (spec_run (sinit c fill) ops)) /\
+  g_get_samples_lb b = lo (fst (spec_run (sinit c fill) ops)) /\
+  zlen (buf b) = cap b /\ 0 <= ilb b <= cap b /\ 1 <= cap b.
+Proof. exact source_bounds. Qed.
+Print Assumptions C14_source_bounds.
+
+(* C14_read_is_stream_slice over the generated reads *)
+Theorem C14_source_read_is_stream_slice : forall c fill ops b0 b, 1 <= c -> wf_hist_e (sinit c fill) ops = true ->
+  g_init c fill = MOk b0 -> fst (g_run b0 ops) = b ->
+  g_get_samples_ub b = zlen (logical ops) /\
+  (forall a e, a <= e ->
+     g_get_range_samples b (Some a) (Some e) =
+     if (g_get_samples_lb b <=? a) && (e <=? g_get_samples_ub b) then Ret (slice (logical ops) a e)
+     else Raise EIndexError) /\
+  (forall a e f, a <= e ->
+     g_get_range_filled b a e f =
+     Ret (zrange (sample_or (logical ops) (g_get_samples_lb b) (g_get_samples_ub b) f) a (e - a))).
+Proof. exact source_read_is_stream_slice. Qed.
+Print Assumptions C14_source_read_is_stream_slice.
+
+Example C14_source_ex : 1 <= 3 /\ binv (binit 3 (-1)) /\ resize_ok (Resize 5) /\
+  wf_hist (sinit 3 (-1)) [Append [1;2]; Append [3;4;5;6]; Invalidate 5; Resize 5; Append [7];
+                          ReadS None None; ReadFilled 0 8 9; Bounds] = true /\
+  g_init 3 (-1) = MOk (binit 3 (-1)) /\
+  snd (g_run (binit 3 (-1)) [Append [1;2]; Append [3;4;5;6]; Invalidate 5; Resize 5; Append [7];
+                             ReadS None None; ReadFilled 0 8 9; Bounds])
+  = [ONone; ONone; ONone; ONone; ONone; OData [4;5;7]; OData [9;9;9;4;5;7;9;9]; OBounds 3 6].
+Proof.
+  split; [lia|]. split; [apply binv_ex|]. split; [cbn; lia|]. vm_compute. repeat split; reflexivity.
+Qed.
